@@ -152,6 +152,10 @@ func registryMethods(r core.MetricRegistry, flush func()) []c17Method {
 		{"RegisterTiming", true, func(g, a int) { add(r.RegisterTiming(fmt.Sprintf("t%d", a%5))) }},
 		{"RegisterCount", true, func(g, a int) { add(r.RegisterCount(fmt.Sprintf("c%d", a%5))) }},
 		{"RegisterGauge", true, func(g, a int) {
+			// mostly new IDs: registration keeps writing the gauge map while the poller iterates it
+			r.RegisterGauge(fmt.Sprintf("g%d.%d", g, a), func() (float64, bool) { return float64(a), true })
+		}},
+		{"RegisterGaugeAgain", true, func(g, a int) {
 			r.RegisterGauge(fmt.Sprintf("g%d", a%5), func() (float64, bool) { return float64(a), true })
 		}},
 		{"AddSample", true, func(g, a int) {
@@ -187,6 +191,13 @@ func c17Subjects() []c17Subject {
 			return limitMethods(l, c17Method{"BackOffRatio", false, func(g, a int) { _ = l.BackOffRatio() }}), func() {}
 		}},
 		mkLimit("vegas", func() core.Limit { return limit.NewDefaultVegasLimitWithLimit("t", 10, nil, reg()) }),
+		mkLimit("vegas(probe=1)", func() core.Limit {
+			// probes every few samples: the baseline measurement object is replaced all the time
+			return limit.NewVegasLimitWithRegistry("t", 3, nil, 20, 0.5, nil, nil, nil, nil, nil, 1, nil, reg())
+		}),
+		mkLimit("gradient(probe=2)", func() core.Limit {
+			return limit.NewGradientLimitWithRegistry("t", 10, 1, 100, 0.2, nil, 2, 2, nil, reg())
+		}),
 		mkLimit("gradient", func() core.Limit {
 			return limit.NewGradientLimitWithRegistry("t", 10, 1, 100, 0.2, nil, 2, 20, nil, reg())
 		}),
@@ -323,11 +334,12 @@ func c17Subjects() []c17Subject {
 		mkStack("default(precise,aimd)", StackCfg{Kind: "default", Strategy: "precise", Limit: 3}, aimd),
 		mkStack("default(lookup,vegas)", StackCfg{Kind: "default", Strategy: "lookup", Limit: 3}, vegas),
 		mkStack("default(predicate,aimd)", StackCfg{Kind: "default", Strategy: "predicate", Limit: 3}, aimd),
-		mkStack("blocking", StackCfg{Kind: "blocking", Strategy: "simple", Limit: 2, TimeoutMs: 1}, aimd),
+		mkStack("blocking", StackCfg{Kind: "blocking", Strategy: "simple", Limit: 2, TimeoutMs: 0}, aimd),
+		mkStack("blocking(retry-timer)", StackCfg{Kind: "blocking", Strategy: "simple", Limit: 2, TimeoutMs: 1}, aimd),
 		mkStack("deadline", StackCfg{Kind: "deadline", Strategy: "precise", Limit: 2, DeadlineMs: 3_600_000}, nil),
 		mkStack("queue-lifo", StackCfg{Kind: "queue", Strategy: "simple", Limit: 2, Ordering: "lifo", Backlog: 3, TimeoutMs: 1, Evict: true}, aimd),
 		mkStack("queue-fifo", StackCfg{Kind: "queue", Strategy: "lookup", Limit: 2, Ordering: "fifo", Backlog: 3, TimeoutMs: 1}, nil),
-		mkStack("pool-random", StackCfg{Kind: "pool", Strategy: "simple", Limit: 2, Ordering: "random", Backlog: 3, TimeoutMs: 1}, nil),
+		mkStack("pool-random", StackCfg{Kind: "pool", Strategy: "simple", Limit: 2, Ordering: "random", Backlog: 3, TimeoutMs: 0}, nil),
 		mkStack("fixedpool-lifo", StackCfg{Kind: "fixedpool", Limit: 2, Ordering: "lifo", Backlog: 3, TimeoutMs: 1}, nil),
 	)
 	// measurements
@@ -354,10 +366,11 @@ func c17Subjects() []c17Subject {
 	// registries
 	subs = append(subs,
 		c17Subject{"gometrics-registry", func() ([]c17Method, func()) {
-			r, err := gometrics.NewGoMetricsMetricRegistry(gm.NewRegistry(), "", "p.", 200*time.Microsecond)
+			r, err := gometrics.NewGoMetricsMetricRegistry(gm.NewRegistry(), "", "p.", 100*time.Microsecond)
 			if err != nil {
 				panic(err)
 			}
+			r.Start()
 			return registryMethods(r, func() {}), func() { stopRegistry(r) }
 		}},
 		c17Subject{"datadog-registry", func() ([]c17Method, func()) {
@@ -365,10 +378,11 @@ func c17Subjects() []c17Subject {
 			if err != nil {
 				panic(err)
 			}
-			r, err := datadog.NewMetricRegistryWithClient(cl, "p.", 200*time.Microsecond)
+			r, err := datadog.NewMetricRegistryWithClient(cl, "p.", 100*time.Microsecond)
 			if err != nil {
 				panic(err)
 			}
+			r.Start()
 			return registryMethods(r, func() { _ = cl.Flush() }), func() { stopRegistry(r); _ = cl.Close() }
 		}},
 	)
@@ -401,10 +415,13 @@ func genC17(t *rapid.T) c17Case {
 	for i, s := range c17SubjectTable {
 		names[i] = s.Name
 	}
+	if only := os.Getenv("VERIF_C17_SUBJECT"); only != "" { // debugging aid: restrict the subject
+		names = []string{only}
+	}
 	c := c17Case{Subject: rapid.SampledFrom(names).Draw(t, "subject")}
 	g := rapid.IntRange(2, 8).Draw(t, "goroutines")
 	for i := 0; i < g; i++ {
-		c.Progs = append(c.Progs, rapid.SliceOfN(rapid.IntRange(0, 63), 10, 120).Draw(t, "prog"))
+		c.Progs = append(c.Progs, rapid.SliceOfN(rapid.IntRange(0, 63), 10, 300).Draw(t, "prog"))
 	}
 	c.Repeat = rapid.IntRange(1, 3).Draw(t, "repeat")
 	return c
